@@ -22,12 +22,16 @@ RULE = ("graphs with 0..4 Input and 0..4 Output children under arbitrary (non-al
 ASSUMPTIONS = ["graph.input_type is None (not {}) when there is no Input child: read as the empty mapping"]
 
 NAMES = ["zeta", "alpha", "input", "output", "in", "Out", "retina", "audio", "x", "ünï", "a.b", "9", "m m"]
+# child names that coincide with attribute / field / method names of the graph object itself
+FIELD_NAMES = ["input_type", "output_type", "inputs", "outputs", "metadata", "edges", "to_dict", "infer_types", "__dict__", "type"]
 
 
 def port_graph(rng, depth):
     """a graph with several ports; children may be nested graphs"""
     names = NAMES[:]
     rng.shuffle(names)
+    if rng.random() < 0.2:
+        names += rng.sample(FIELD_NAMES, rng.randint(1, 3))      # popped first
     nodes, edges = {}, []
     n_in, n_out = rng.choice([0, 1, 1, 2, 3, 4]), rng.choice([0, 1, 1, 2, 3, 4])
     shapes = []
@@ -36,7 +40,10 @@ def port_graph(rng, depth):
         sh = [rng.randint(1, 6) for _ in range(rng.choice([1, 1, 2]))]
         if rng.random() < 0.12:      # large axes: a wrong Output shape is then off by a tiny RELATIVE amount
             sh[-1] = rng.choice([100000, 200000, 480000, 1 << 20])
-        nodes[nm] = {"k": "Input", "args": {"input_type": np.array(sh, dtype=np.int64)}}
+        arr = np.array(sh, dtype=np.int64)
+        if len(sh) == 1 and rng.random() < 0.15:
+            arr = np.array(sh[0], dtype=np.int64)       # a 0-d shape "array" (h5py hands it back as a numpy scalar)
+        nodes[nm] = {"k": "Input", "args": {"input_type": arr}}
         shapes.append((nm, sh))
     mids = []
     for i in range(rng.choice([0, 1, 2, 3])):
@@ -240,12 +247,18 @@ def run(c):
             if f:
                 fail = f"after {done}: {f}"
     coq = None
-    if r is None:
-        pass
+    if r is None or fail:
+        pass        # (after an oracle failure the object may not even be expressible as a model term)
     elif c["hist"] and all(o == "infer" for o in c["hist"]) and len(c["hist"]) <= 2 and done == c["hist"]:
-        coq = cinfer_frame(r, ("ok", g, raised_last, None), twice=len(c["hist"]) == 2, raised_any=raised_any)
+        try:
+            coq = cinfer_frame(r, ("ok", g, raised_last, None), twice=len(c["hist"]) == 2, raised_any=raised_any)
+        except TypeError as e:
+            fail = f"after {done}: the graph holds a value where a plain field value belongs: {e}"
     elif not c["hist"]:
         from .common import cbuild
-        coq = cbuild(r, b)
+        try:
+            coq = cbuild(r, b)
+        except TypeError as e:
+            fail = f"after construction: the graph holds a value where a plain field value belongs: {e}"
     nontriv = "infer" in c["hist"] or r is None or sum(1 for n in r["nodes"].values() if n["k"] in ("Input",)) >= 2
     return Outcome(coq, fail, nontriv, sig)
